@@ -1,6 +1,11 @@
+import bisync
 import libchecks
 
 CHECKS = {
+    "C02": bisync.c02,
+    "C06": bisync.c06,
+    "C07": bisync.c07,
+    "C08": bisync.c08,
     "C01": libchecks.c01,
     "C05": libchecks.c05,
     "C16": libchecks.c16,
